@@ -183,6 +183,48 @@ def gen_case(pyrng, present, nmax=12, force=None):
     return c
 
 
+def gen_mixed_batch(pyrng, nmax=10):
+    """a batch of start vectors for one operator in which exactly one element lies in a low-dimensional invariant subspace
+    (early exhaustion) and the others are generic, in either order, with max_iters below n: the per-element factorisation must
+    not depend on the rest of the batch"""
+    g = np.random.default_rng(pyrng.getrandbits(64))
+    cplx = bool(g.random() < 0.4)
+    n = int(g.integers(5, max(6, nmax + 1)))
+    lam = np.sort(g.uniform(0.5, 1.0, n)) + np.arange(n)          # well separated spectrum
+    if g.random() < 0.5:
+        lam = lam - n / 2.0
+    U = rand_unitary(g, n, cplx)
+    S = herm((U * lam) @ U.conj().T)
+    if not cplx:
+        S = S.real
+    r = int(g.integers(2, n - 2))
+    nb = int(g.integers(2, 4))
+    pos = int(g.integers(0, nb))
+    vs, grades = [], []
+    for b in range(nb):
+        if b == pos:
+            idx = g.choice(n, size=r, replace=False)
+            v = U[:, idx] @ (g.uniform(0.5, 2.0, r) * g.choice([-1, 1], r)); grades.append(r)
+        else:
+            v = g.normal(size=n) + (1j * g.normal(size=n) if cplx else 0); grades.append(n)
+        vs.append(v if cplx else np.real(v))
+    return dict(kind="dense", cplx=cplx, style="separated", parts=[enc(S)], n=n, start="mixed", batch=nb, grades=grades,
+                v=enc(np.stack(vs, 0)), max_iters=int(g.integers(r + 1, n)), tol=float(g.choice([1e-7, 1e-6, 1e-3])), entry="lanczos")
+
+
+def coq_elem_cases(c, obs, alias_flag_present):
+    """one single-start Coq case per batch element (element b of the batched call against the run on v_b alone)"""
+    S = dense_of(c)
+    V = dec(c["v"])
+    alias = "true" if (obs.get("alias") and alias_flag_present) else "false"
+    out = []
+    for b in range(len(obs["Q"])):
+        Q = dec(obs["Q"][b]) if obs["Q"][b] else np.zeros((0, c["n"]))
+        el = "(" + coq_mat(Q) + "," + coq_vec(dec(obs["off"][b]) if obs["off"][b] else []) + "," + coq_vec(dec(obs["diag"][b])) + ")"
+        out.append(f"mk_lcase {c['n']} {coq_mat(S)} {alias} {coq_mat(V[b:b + 1])} {c['max_iters']} {hexf(c['tol'])} {obs['k']} [{el}]")
+    return out
+
+
 def in_avoided_region(c, present):
     """regions spoiled by the defects the tree exhibits (the Coq comparison never enters the first two:
     there the trajectory is normalised rounding noise)"""
@@ -324,18 +366,21 @@ def krylov_basis(S, v, jmax):
     U = np.zeros((n, 0), dtype=complex)
     q = v.astype(complex) / np.linalg.norm(v)
     grade = None
+    nws = []
     for j in range(jmax):
         U = np.concatenate([U, q[:, None]], 1)
         w = S @ q
         for _ in range(2):
             w = w - U @ (U.conj().T @ w)
         nw = np.linalg.norm(w)
+        nws.append(float(nw))
         if nw <= 1e-11 * scale * math.sqrt(n):
             grade = j + 1
             break
         if nw < 1e-3 * scale:
             break
         q = w / nw
+    krylov_basis.nws = nws          # remainder norms ||(I - P_j) A q_j|| of the steps taken (= the ideal beta_1, beta_2, ...)
     return U, grade
 
 
@@ -378,8 +423,13 @@ def oracle(c, obs, check_span=True):
         if k > 1 and np.abs(R[:, :-1]).max() > 1e-8 * scale:
             bad.append(tag + "A Q - Q T not confined to the last column")
         U, grade = krylov_basis(S, v, min(n, k + 1))
+        nws = krylov_basis.nws
         if grade is not None and k > grade:
             bad.append(tag + f"{k} columns although the Krylov space is exhausted at dimension {grade}")
+        # the iteration may stop before the cap only when the remainder has fallen to tol*beta_1 (or to zero at the first step)
+        if 1 <= k < m and len(nws) >= k and nws[k - 1] > 2.0 * c["tol"] * nws[0] + 1e-6 * scale:
+            bad.append(tag + f"only {k} of min(max_iters,n)={m} columns although the remainder after step {k} is {nws[k - 1]:.3g} "
+                             f"(beta_1={nws[0]:.3g}, tol={c['tol']}): truncated factorisation")
         if check_span:
             for j in range(1, min(k, U.shape[1]) + 1):
                 Uj = U[:, :j]
